@@ -19,6 +19,7 @@ class H:
         self.reg = route in ('new', 'alloc', 'new_root', 'alloc_root')
         self.root = route in ('new_root', 'alloc_root')
         self.ety = kw.get('ety'); self.kty = kw.get('kty'); self.vty = kw.get('vty'); self.n = kw.get('n', 0); self.rtk = kw.get('rtk')
+        self.owns = kw.get('owns'); self.target = kw.get('target')
 
 class Gen:
     def __init__(self, rng, max_stack=40):
@@ -48,13 +49,54 @@ class Gen:
     def mk_tup(self, route=None, items=None):
         i = self.fresh(); r = route or self.route(['new', 'new_raw', 'new_root', 'stack', 'static', 'stack'])
         if items is None:
-            cand = self.live(lambda h: h.kind in ('int', 'str', 'rto', 'ref'))
+            cand = [c for c in self.live(lambda h: h.kind in ('int', 'str', 'rto', 'ref')) if not self.owned(c)]
             items = self.rng.sample(cand, min(len(cand), self.rng.randrange(0, 5))) if cand else []
         self.emit(f'tup {i} {r} ' + ' '.join(map(str, items))); self.h[i] = H('tup', r, n=len(items)); self.h[i].items = list(items); return i
     def mk_ref(self, route=None):
         cand = self.live()
         if not cand: return self.mk_int()
-        i = self.fresh(); r = route or self.route(['new', 'new_raw', 'stack', 'alloc']); self.emit(f'ref {i} {r} {self.rng.choice(cand)}'); self.h[i] = H('ref', r); return i
+        i = self.fresh(); r = route or self.route(['new', 'new_raw', 'stack', 'alloc']); t = self.rng.choice(cand); self.emit(f'ref {i} {r} {t}')
+        th = self.h[t]
+        self.h[i] = H('ref', r, target=(th.target if th.kind == 'ref' and r in ('new', 'new_raw', 'new_root') else t)); return i
+    # ---- Boxes: the destructor of a Box deletes what it points to
+    def owned(self, i):
+        return any(h.live and h.kind == 'box' and h.owns == i for h in self.h.values())
+    def ownable(self, i):
+        h = self.h.get(i)
+        return h is not None and h.live and h.kind not in ('rtt', 'sty') and not self.referenced(i)
+    def mk_box(self, route=None, target=None):
+        i = self.fresh(); r = route or self.rng.choice(['new', 'new', 'new_raw', 'new_root', 'alloc', 'alloc', 'alloc_raw', 'alloc_root'])
+        if r.startswith('alloc'):
+            self.emit(f'box {i} {r} -'); self.h[i] = H('box', r); return i
+        cand = [c for c in self.live() if self.ownable(c)]
+        t = target if target is not None else (self.rng.choice(cand) if cand else None)
+        if t is None: self.emit(f'box {i} alloc -'); self.h[i] = H('box', 'alloc'); return i
+        self.emit(f'box {i} {r} {t}')
+        th = self.h[t]; fin = th.target if th.kind == 'ref' else th.owns if th.kind == 'box' else t
+        if fin is not None and not self.ownable(fin): self.next -= 1; return i       # skipped by both sides
+        self.h[i] = H('box', r, owns=fin); return i
+    def own_op(self, b=None, t='auto'):
+        boxes = self.live(lambda h: h.kind == 'box')
+        if not boxes: return self.mk_box()
+        b = self.rng.choice(boxes) if b is None else b
+        if t == 'auto':
+            cand = [c for c in self.live() if self.ownable(c)]
+            pref = [c for c in cand if self.h[c].kind == 'box']
+            t = None if (not cand or self.rng.random() < 0.1) else self.rng.choice(pref if pref and self.rng.random() < 0.6 else cand)
+        self.emit(f'own {b} {"-" if t is None else t}')
+        if t is None or self.ownable(t): self.h[b].owns = t
+    def release_closure(self, seeds):
+        """the seeds are finalised: a Box deletes its pointee, which is released too if the collector lists it"""
+        R = set(seeds); ch = True
+        while ch:
+            ch = False
+            for b in list(R):
+                h = self.h[b]
+                if h.kind == 'box' and h.owns in self.h:
+                    hv = self.h[h.owns]
+                    if hv.live and hv.heap and hv.reg and h.owns not in R: R.add(h.owns); ch = True
+        for i in R: self.note_release(i)
+        return R
     def mk_seq(self, kind=None, route=None, ety=None, n=None):
         i = self.fresh(); kind = kind or self.rng.choice(['arr', 'lst']); r = route or self.rng.choice(['new', 'new_raw', 'new_root', 'new'])
         ety = ety or self.etype(); n = self.rng.randrange(0, 7) if n is None else n
@@ -85,13 +127,13 @@ class Gen:
         if not cand: return self.mk_int()
         src = self.rng.choice(cand); s = self.h[src]; i = self.fresh(); self.emit(f'cpy {i} {src}')
         if s.kind not in ('sty', 'rtt'):
-            self.h[i] = H(s.kind, 'new', ety=s.ety, kty=s.kty, vty=s.vty, n=s.n, rtk=s.rtk)
+            self.h[i] = H(s.kind, 'new', ety=s.ety, kty=s.kty, vty=s.vty, n=s.n, rtk=s.rtk, owns=s.owns, target=s.target)
             if s.kind == 'tup': self.h[i].items = list(getattr(s, 'items', []))
         else: self.next -= 1
         return i
     def any_birth(self):
         f = self.rng.choice([self.mk_int, self.mk_int, self.mk_str, self.mk_str, self.mk_tup, self.mk_tup, self.mk_ref, self.mk_seq, self.mk_seq,
-                             self.mk_map, self.mk_map, self.mk_rtt, self.mk_rto, self.mk_sty, self.mk_cpy])
+                             self.mk_map, self.mk_map, self.mk_rtt, self.mk_rto, self.mk_sty, self.mk_cpy, self.mk_box, self.mk_box])
         return f()
     # ---- targets
     def elem_targets(self, i):
@@ -122,7 +164,8 @@ class Gen:
         if h.kind == 'rtt' and any(x.live and (x.rtk == h.rtk and x is not h or x.ety == f'RT{h.rtk}' or x.vty == f'RT{h.rtk}') for x in self.h.values()): return
         if self.referenced(i): return
         if via and not h.reg: return
-        self.note_release(i)
+        if f in ('del', 'del_root', 'del_raw'): self.release_closure([i])
+        else: self.note_release(i)
     def inplace_op(self, i=None):
         cand = self.live(lambda h: h.kind in ('str', 'tup', 'arr', 'lst', 'tab', 'tre', 'sty', 'rtt'))
         if not cand: return
@@ -135,7 +178,7 @@ class Gen:
         elif h.kind == 'tup':
             op = r.choice(['push', 'pop', 'push_at', 'pop_at', 'concat', 'assign', 'resize', 'rem'])
             items = getattr(h, 'items', [])
-            if op == 'push': x = src(('int', 'str', 'rto')); self.emit(f'push {i} {x}'); (h.heap and items.append(x))
+            if op == 'push': x = src(('int', 'str', 'rto')); self.emit(f'push {i} {x}'); (h.heap and not self.owned(x) and items.append(x))
             elif op == 'pop': self.emit(f'pop {i}'); (h.heap and items and items.pop())
             elif op == 'push_at': self.emit(f'push_at {i} {src(("int", "str"))} {r.randrange(-3, 5)}'); h.items = items + [-1]
             elif op == 'pop_at': self.emit(f'pop_at {i} {r.randrange(-3, 5)}')
@@ -185,15 +228,28 @@ class Gen:
             else: self.emit(f'view {k} {i}')
         elif c < 0.85: self.emit(f'obs {i}')
         else: self.emit(f'view {r.choice(["range", "hrange"])} {r.randrange(-3, 4)} {r.randrange(-3, 8)} {r.choice([1, 1, 2, -1, -2, 0, 3])}')
-    def sweep(self):
+    def sweep(self, v=None, how=None):
         cand = self.live()
         if not cand: return
-        v = self.rng.sample(cand, min(len(cand), self.rng.randrange(1, 5)))
-        self.emit('sweep ' + ' '.join(map(str, v)))
+        if v is None:
+            v = self.rng.sample(cand, min(len(cand), self.rng.randrange(1, 6)))
+            # a Box among the victims: often its pointee too, so that both wait in the same sweep
+            for i in list(v):
+                o = self.h[i].owns
+                if self.h[i].kind == 'box' and o in self.h and self.h[o].live and o not in v and self.rng.random() < 0.7: v.append(o)
+        order = self.rng.sample(v, self.rng.randrange(0, len(v) + 1))
+        how = how or self.rng.choice(['sweep', 'sweep', 'thr'])
+        self.emit(f'{how} ' + ' '.join(map(str, v)) + (' ; ' + ' '.join(map(str, order)) if order or self.rng.random() < 0.3 else ''))
+        seeds = []
         for i in v:
             h = self.h[i]
             if h.heap and h.reg and not h.root and not self.referenced(i) and not (h.kind == 'rtt' and any(x.live and x is not h and (x.rtk == h.rtk or x.ety == f'RT{h.rtk}' or x.vty == f'RT{h.rtk}') for x in self.h.values())):
-                self.note_release(i)
+                seeds.append(i)
+        self.release_closure(seeds)
+    def exit_op(self):
+        cand = self.live(lambda h: h.reg and not h.root)
+        order = self.rng.sample(cand, self.rng.randrange(0, min(len(cand), 6) + 1)) if cand else []
+        self.emit('exit' + (' ; ' + ' '.join(map(str, order)) if order else ''))
 
 def systematic(kind):
     """every route of one kind of object x every freeing operation and every in-place operation, each on a fresh object"""
@@ -202,7 +258,7 @@ def systematic(kind):
     base_i = g.mk_int('new'); base_s = g.mk_str('new'); base_t = g.mk_tup('new', [base_i, base_s]); g.mk_rtt('new')
     routes = {'int': ROUTES, 'str': ['new', 'new_raw', 'new_root', 'stack', 'static', 'alloc'], 'tup': ['new', 'new_raw', 'new_root', 'stack', 'static'],
               'ref': ['new', 'new_raw', 'new_root', 'alloc', 'stack'], 'arr': ['new', 'new_raw', 'new_root'], 'lst': ['new', 'new_raw', 'new_root'],
-              'tab': ['new', 'new_raw', 'new_root'], 'tre': ['new', 'new_raw', 'new_root'], 'rtt': ['new', 'new_raw', 'new_root'], 'rto': HEAP_ROUTES, 'sty': ['static']}[kind]
+              'tab': ['new', 'new_raw', 'new_root'], 'tre': ['new', 'new_raw', 'new_root'], 'rtt': ['new', 'new_raw', 'new_root'], 'rto': HEAP_ROUTES, 'sty': ['static'], 'box': HEAP_ROUTES}[kind]
     def make(r):
         if kind == 'int': return g.mk_int(r)
         if kind == 'str': return g.mk_str(r)
@@ -212,6 +268,10 @@ def systematic(kind):
         if kind in ('tab', 'tre'): return g.mk_map(kind, r, g.rng.choice(['Int', 'String']), g.rng.choice(['Int', 'String', 'RT' + str(list(g.rt)[0])]), 3)
         if kind == 'rtt': return g.mk_rtt(r)
         if kind == 'rto': return g.mk_rto(r)
+        if kind == 'box':
+            b = g.mk_box(r, target=(g.mk_int(g.rng.choice(['new', 'new_raw', 'new_root', 'stack', 'static'])) if not r.startswith('alloc') else None))
+            if r.startswith('alloc') and g.rng.random() < 0.7: g.own_op(b)
+            return b
         return g.mk_sty()
     for r in routes:
         for f in FREE_OPS:
@@ -236,10 +296,70 @@ def random_history(rng, nops, max_stack):
         c = rng.random()
         if g.next > 560: break
         if c < 0.22: g.any_birth()
-        elif c < 0.50: g.free_op()
-        elif c < 0.78: g.inplace_op()
-        elif c < 0.95: g.look()
-        else: g.sweep()
+        elif c < 0.48: g.free_op()
+        elif c < 0.72: g.inplace_op()
+        elif c < 0.80: g.own_op()
+        elif c < 0.94: g.look()
+        elif c < 0.99: g.sweep()
+        else: g.exit_op()
+    if rng.random() < 0.5: g.exit_op()
+    g.emit('end')
+    return g.lines
+
+LEAF_ROUTES = ['new', 'new', 'new_raw', 'new_root', 'stack', 'static']
+
+def release_history(rng, rounds):
+    """nested release: Boxes that own each other (chains owner -> owned, rings, a Box that owns itself, two Boxes that own
+    the same object, a Box that owns a root / raw / stack / static object or a container), released by every route — del,
+    del_root, del_raw, a forced collection, a threshold collection, the teardown at exit — with the owner before and after
+    the owned on the pending list"""
+    g = Gen(rng, max_stack=8)
+    for _ in range(rounds):
+        if g.next > 520: break
+        boxes = []; leaves = []
+        shape = rng.choice(['ring', 'ring', 'chain', 'chain', 'self', 'fan', 'random', 'random'])
+        n = 1 if shape == 'self' else rng.randrange(2, 6)
+        for _ in range(n):
+            boxes.append(g.mk_box(rng.choice(['alloc', 'alloc', 'alloc', 'alloc_root', 'alloc_raw'])))
+        for _ in range(rng.randrange(0, 3)):
+            k = rng.random()
+            leaves.append(g.mk_int(g.route(LEAF_ROUTES)) if k < 0.5 else g.mk_str(g.route(['new', 'new_raw', 'new_root', 'stack'])) if k < 0.8 else g.mk_seq(route=rng.choice(['new', 'new_raw'])))
+        if shape == 'ring':
+            for a, b in zip(boxes, boxes[1:] + boxes[:1]): g.own_op(a, b)
+        elif shape == 'chain':
+            for a, b in zip(boxes, boxes[1:]): g.own_op(a, b)
+            if leaves: g.own_op(boxes[-1], leaves[0])
+        elif shape == 'self':
+            g.own_op(boxes[0], boxes[0])
+        elif shape == 'fan':
+            tgt = leaves[0] if leaves and rng.random() < 0.5 else boxes[-1]
+            for a in boxes[:-1]: g.own_op(a, tgt)
+        else:
+            for a in boxes: g.own_op(a, rng.choice(boxes + leaves + [None]))
+        if rng.random() < 0.3 and g.next < 540: boxes.append(g.mk_box('new', target=rng.choice(boxes + leaves)))
+        if rng.random() < 0.2 and g.next < 540:
+            c = g.mk_cpy()
+        if rng.random() < 0.5: g.emit(f'obs {rng.choice(boxes)}')
+        # what the teardown would do from here, under two layouts of the registry
+        g.exit_op()
+        if rng.random() < 0.5: g.exit_op()
+        # then release them by one of the routes
+        how = rng.choice(['sweep', 'sweep', 'thr', 'del', 'del', 'mixed'])
+        members = [b for b in boxes + leaves if g.h[b].live]
+        if how in ('sweep', 'thr'):
+            v = [m for m in members if rng.random() < 0.85] or members
+            rng.shuffle(v)
+            g.sweep(v, how)
+        else:
+            rng.shuffle(members)
+            for m in members[: rng.randrange(1, len(members) + 1)]:
+                h = g.h[m]
+                if not h.live and rng.random() < 0.5: continue
+                f = ('del_root' if h.root else 'del') if h.reg else rng.choice(['del_raw', 'del_raw', 'del', 'dealloc_raw']) if h.heap else rng.choice(['del', 'del_raw', 'dealloc'])
+                if how == 'mixed' and rng.random() < 0.3: g.sweep([x for x in members if rng.random() < 0.5] or members)
+                g.free_op(m, f)
+        for b in boxes[:3]: g.emit(f'obs {b}')
+    if rng.random() < 0.7: g.exit_op()
     g.emit('end')
     return g.lines
 
@@ -270,18 +390,24 @@ class C19(Spec):
     id = 'C19'; engine = 'hdr'; harness = 'h_hdr'; driver = 'drv_hdr'
     generators = ('Hdr',)
     harness_timeout = 300
-    technique = ('Lean 4 proof: invariants of an executable model of headers, births, dealloc/del, the String/Tuple guards and the collector registry, '
+    technique = ('Lean 4 proof: invariants of an executable model of headers, births, dealloc/del, the String/Tuple guards, the collector registry and the '
+                 'collector\'s release paths (GC_Rem_Ptr, GC_Sweep\'s pending list and release loop, the teardown, destructors that delete other objects), '
                  'for every history of operations; the parameters a source change can flip (enum values, every header_init site, the order of checks in dealloc, '
-                 'the guard of every reallocating String/Tuple function, where objects are registered) are re-extracted from /repo on every run and the theorems are '
-                 're-checked against them; white-box differential check of the model against the real library')
+                 'the guard of every reallocating String/Tuple function, where objects are registered, the order of "un-list" and "finalise" on every release path) '
+                 'are re-extracted from /repo on every run and the theorems are '
+                 're-checked against them; white-box differential check of the model against the real library, release sequence included')
     level_text = ('Theorems (CelloProofs/Props/C19.lean), for every configuration that is Sound and for Config.current (decided over tables regenerated from the source): '
                   'every reachable state of the model is well formed — each object handed out by new/new_raw/new_root/alloc*/$/copy/run-time Type carries the constructing '
                   'type, the class of its route and the magic number; each element, key and value of Array/List/Table/Tree carries the declared type and class data and has '
                   'size(type) bytes; iteration and the views hand out exactly such objects; dealloc releases iff the class is heap and otherwise raises ResourceError with the '
                   'state unchanged; every reallocating String/Tuple operation applied to a stack or static object raises (ValueError, or IndexOutOfBoundsError when the index '
                   'check comes first) before anything is changed; only heap objects are ever registered, so del and a collector run release only heap objects, and no object is '
-                  'released twice over any history. The model is tied to the implementation by executing thousands of generated histories on both, comparing type, class, '
-                  'registration, value and release after every operation.')
+                  'released twice over any history — histories in which destructors delete other objects (Boxes: chains, rings, a Box that owns itself), also objects that '
+                  'wait on the pending list of the sweep under way, in every pending order, at forced and threshold collections and at the teardown: every victim of a '
+                  'collection is released exactly once and no released block is touched. The order "un-list, then finalise" of GC_Sweep\'s release loop and of both branches of '
+                  'GC_Rem_Ptr is read from the source; with the other order the model exhibits the double finalisation (C19_late_clear_refuted). '
+                  'The model is tied to the implementation by executing thousands of generated histories on both, comparing type, class, '
+                  'registration, value and the exact sequence of released blocks after every operation.')
     level_note = ('Trusted: Lean kernel (axioms propext / Quot.sound / Classical.choice at most); translate/g_hdr.py (text extraction); harness/driver comparison (testing); '
                   'AddressSanitizer for invalid or double frees; libc malloc/realloc/free are modelled. Known on this tree (not repaired, reported to the coordinator): '
                   'del_raw of a String embedded in a container runs its destructor before dealloc refuses it (use after free while formatting the error); Tree_Alloc does not '
@@ -289,16 +415,23 @@ class C19(Spec):
     rule = ('op files: (a) for each kind of object (Int, String, Tuple, Ref, Array, List, Table, Tree, run-time Type, object of a run-time type, static built-in Type) every '
             'route that can produce it x each of the 7 freeing operations and 10 random in-place operations, each on a fresh object, also on its elements; (b) random '
             'histories of births (all routes; stack objects made with the real $ / tuple macros in live frames), freeing, reallocating and container operations, '
-            'iteration, views and collector runs with chosen victims; (c) container histories that create, move and drop many elements and then look at every one. '
+            'iteration, views and collector runs with chosen victims; (c) container histories that create, move and drop many elements and then look at every one; '
+            '(d) release histories: Boxes wired into chains, rings, self-loops, shared and dangling owners over registered / root / raw / stack / static objects and containers, '
+            'released by del, del_root, del_raw, forced collections, threshold collections (registrations until GC_Set collects) and the teardown at exit (forked child, '
+            'ledger reported after Cello_Exit), each with a chosen pending order (owner before owned and owned before owner). '
             'non-trivial item = an (operation, observation) pair whose observation shows a refusal (an exception), a release, a non-heap or embedded object, '
-            'or a non-empty iteration; distinct = distinct pair text.')
+            'or a non-empty iteration; distinct = distinct pair text (ids replaced by #, so a release sequence counts by its length and shape).')
     trusted_base = ('translate/g_hdr.py (regex extraction from Cello.h, Alloc.c, Type.c, String.c, Tuple.c, Array.c, List.c, Table.c, Tree.c, GC.c)',
-                    'harness/h_hdr.c + lean/Driver/Hdr.lean (correspondence is testing); free/realloc hooks are macros in the unity build',
+                    'harness/h_hdr.c + lean/Driver/Hdr.lean (correspondence is testing); free/realloc hooks are macros in the unity build; the marks and the pending order of a '
+                    'collection are set white-box at the first statement of GC_Sweep (ptr words of the victims\' registry entries exchanged among themselves: what another '
+                    'assignment of addresses would give), the mark phase itself is C01\'s business',
                     'AddressSanitizer / UBSan for invalid frees and out-of-bounds writes; libc allocation functions are modelled, not verified',
                     'sizeof of the built-in structs on x86-64 is written into the model (checked against size(type) by the harness)')
     assumptions = ('default build (CELLO_NDEBUG removes header class and magic checks: read from the source, listed in CelloGen.Hdr.ndebugRemoves)',
                    'single thread; the collector is running; raw deletion (dealloc*, del_raw) is not applied to an object the collector manages, a run-time Type is not deleted while in use, '
-                   'an object that is an item of a live Tuple is not deleted (documented misuse: both sides skip such operations)',
+                   'an object that is an item of a live Tuple is not deleted (documented misuse: both sides skip such operations); a Tuple never holds a Box or an object a live Box owns, '
+                   'a Box never owns a Type object or a Tuple item (Box_Show follows the pointer, the mark phase dereferences Tuple items); destructors delete but do not allocate; '
+                   'Boxes live on the heap; the teardown is not observed while a registered run-time Type object exists',
                    'not generated (known findings, witnesses in corpus/kf_c19_*.ops): del_raw / destruct of a String embedded in a container; a Tree whose key type has a size that is '
                    'not a multiple of 8; `del` of an unregistered object is only required to leave it intact',
                    'tuples with a repeated item are not iterated (F13, C11); slices are taken as slice(x, start, _) (F11, C11)',
@@ -307,12 +440,16 @@ class C19(Spec):
         cs = []
         quick = tier == 'quick'
         import random
-        for kind in ('int', 'str', 'tup', 'ref', 'arr', 'lst', 'tab', 'tre', 'rtt', 'rto', 'sty'):
+        for kind in ('int', 'str', 'tup', 'ref', 'arr', 'lst', 'tab', 'tre', 'rtt', 'rto', 'sty', 'box'):
             cs.append(Case(f'sys_{kind}', systematic(kind)))
         n_rand = (40 if quick else 2500) * boost
         for i in range(n_rand):
             r = random.Random(rng.random())
             cs.append(Case(f'rand{i}', random_history(r, r.randrange(60, 220 if quick else 500), r.choice([0, 10, 40]))))
+        n_rel = (30 if quick else 1500) * boost
+        for i in range(n_rel):
+            r = random.Random(rng.random())
+            cs.append(Case(f'rel{i}', release_history(r, r.randrange(2, 8 if quick else 14))))
         n_cont = (10 if quick else 400) * boost
         for i in range(n_cont):
             r = random.Random(rng.random())
@@ -325,7 +462,7 @@ class C19(Spec):
         for op, o in zip(ops, obs):
             if o.startswith('O skip') or o.startswith('O bad-op'): continue
             m = re.search(r'exc=(\w+)', o)
-            if (m and m.group(1) != 'none') or 'live=0' in o or re.search(r'cls=(data|stack|static)', o) or re.search(r'items n=[1-9]', o) or re.search(r'sweep freed=\d', o):
+            if (m and m.group(1) != 'none') or 'live=0' in o or re.search(r'cls=(data|stack|static)', o) or re.search(r'items n=[1-9]', o) or re.search(r'(freed|rel)=\d', o):
                 out.add(hash((re.sub(r'\d+', '#', op), re.sub(r'^O mk \d+', 'O mk', o))))
         return out
     def stats(self, case, c_out, m_out, acc):
@@ -338,6 +475,10 @@ class C19(Spec):
             m = re.search(r'cls=(\w+)', o)
             if m: acc['cls_' + m.group(1)] = acc.get('cls_' + m.group(1), 0) + 1
             if 'live=0' in o: acc['released'] = acc.get('released', 0) + 1
+            m = re.search(r'(?:freed|rel)=([\d,]+)', o)
+            if m:
+                n = len(m.group(1).split(','))
+                if n >= 2: acc['nested_' + k] = acc.get('nested_' + k, 0) + 1; acc['max_cascade'] = max(acc.get('max_cascade', 0), n)
         for l in core.lines_with('I ', c_out):
             m = re.search(r'refused=(\d+)', l)
             if m: acc['refused'] = acc.get('refused', 0) + int(m.group(1))
